@@ -538,7 +538,15 @@ func zzC12Version() {
 	if hv != "" {
 		req.Header.Set(protocolVersionHeader, hv)
 	}
-	req.Header.Set(methodHeader, method)
+	// the Mcp-Method mirror (C12-H2 decides the function; here that servePOST consults it before anything is handed on):
+	// right, wrong or missing
+	mirror := vChoice("methodHeader", 3)
+	switch mirror {
+	case 0:
+		req.Header.Set(methodHeader, method)
+	case 1:
+		req.Header.Set(methodHeader, "resources/list")
+	}
 	env.incomingBody = []jsonrpc.Message{hdr}
 	if batch > 0 {
 		env.isBatch = true
@@ -548,6 +556,15 @@ func zzC12Version() {
 	}
 	c.servePOST(w, req)
 	accepted := env.hangs == 1
+	if mirror != 0 && batch == 0 && hv >= minVersionForStandardHeaders && accepted {
+		vAssert(false, "C12.post.mirror-headers-checked-before-anything-is-handed-on")
+	}
+	if mirror != 0 && batch == 0 && hv >= minVersionForStandardHeaders {
+		vAssert(w.code == http.StatusBadRequest, "C12.version-mismatch-400")
+		vReach("mirror-refused")
+		vReach("end")
+		return
+	}
 	if batch > 0 && hv >= protocolVersion20250618 {
 		vAssert(!accepted && w.code == http.StatusBadRequest, "C02.batches-refused-from-2025-06-18-on")
 		vReach("end")
